@@ -177,11 +177,18 @@ pub fn c13(case_seed: u64, acc: &mut Acc) {
             let a = r2.below(lay.len());
             let b = (a + 1 + r2.below(lay.len() - 1)) % lay.len();
             let mut c2 = case.clone();
-            c2.script.faults = vec![(c, Fault::Swap(a, b))];
+            let ins: Vec<usize> = (0..case.signals.len()).filter(|&i| matches!(case.signals[i].kind, SigKind::In(_))).collect();
+            let dev = match r2.below(5) {
+                0 => Fault::AddUnknown,
+                1 if !ins.is_empty() => Fault::AddInput(*r2.pick(&ins)),
+                2 => Fault::Duplicate(a),
+                _ => Fault::Swap(a, b),
+            };
+            c2.script.faults = vec![(c, dev.clone())];
             if let Some(ran) = standard_run(&c2, acc, None) {
                 acc.event("continued_past_a_reordered_answer", 1);
                 if let Some(f) = first_some(vec![no_panic(&ran.real), diff_items(&ran.pr, &ran.rf, &ran.real, Aspects::rows()), attribution(&c2.signals, &ran.real)]) {
-                    acc.violation(case_seed, &format!("continue-after-Swap({a},{b})@{c}"), f, json!({"case": case_json(&c2, &ran.pr), "fault": format!("Swap({a},{b}) at call {c}, iteration continued")}));
+                    acc.violation(case_seed, &format!("continue-after-{dev:?}@{c}"), f, json!({"case": case_json(&c2, &ran.pr), "fault": format!("{dev:?} at call {c}, iteration continued")}));
                     return;
                 }
             }
